@@ -7,6 +7,7 @@ import (
 	"github.com/skx/evalfilter/v2/ast"
 	"github.com/skx/evalfilter/v2/lexer"
 	"github.com/skx/evalfilter/v2/parser"
+	"github.com/skx/evalfilter/v2/token"
 	"pgregory.net/rapid"
 
 	"verif/harness/evid"
@@ -28,6 +29,7 @@ func valuelessOperand(script string) bool {
 		return false
 	}
 	found := false
+	repaired := false // the script shows a defect that was repaired: never attributed to the open finding
 	valueless := func(n ast.Node) bool {
 		switch x := n.(type) {
 		case *ast.AssignStatement, *ast.PostfixExpression, *ast.LocalVariable, *ast.ForeachStatement, *ast.WhileStatement,
@@ -56,6 +58,11 @@ func valuelessOperand(script string) bool {
 			pf, ok := es.Expression.(*ast.PostfixExpression)
 			if !ok {
 				continue
+			}
+			if pf.Token.Type != token.IDENT {
+				// "++" after something that is not a name was accepted before
+				// fix 6ea59da; if that comes back it is reported, not excused
+				repaired = true
 			}
 			good := false
 			if i > 0 {
@@ -154,7 +161,7 @@ func valuelessOperand(script string) bool {
 		}
 	}
 	walk(prog)
-	return found
+	return found && !repaired
 }
 
 func isNilNode(n ast.Node) bool {
